@@ -610,7 +610,7 @@ SUBCHECKS = [
     SubCheck('gridded_history', c13.gridded_cases(), c13.check_gridded,
              'see C13 gridded: evaluations in >=2 different cells, copies and '
              'parameter changes before the compared evaluation (fresh-model '
-             'reference)', quick=(8, 60), thorough=(16, 1500)),
+             'reference)', quick=(16, 150), thorough=(16, 1500)),
     SubCheck('psf_repeat', psf_cases(), check_psf_repeat,
              'non-trivial = >=2 calls of different kinds (finder / init_params '
              '/ init_params with group_id) on one instance',
